@@ -4,6 +4,7 @@ import TrackVerif.TA.Driver
 import TrackVerif.Conv.Driver
 import TrackVerif.GP.Driver
 import TrackVerif.GPMF.Driver
+import TrackVerif.GPMF.Mp4Driver
 /-
   Line-protocol driver.  One case per input line:
       AREA op arg… => impl-output-tokens…
@@ -33,6 +34,7 @@ def dispatch (line : String) : String :=
     | "CV" => Conv.Driver.handle args impl
     | "GP" => GP.Driver.handle args impl
     | "GM" => GPMF.Driver.handle args impl
+    | "M4" => GPMF.Mp4Driver.handle args impl
     | _ => "BAD"
 
 partial def loop (h : IO.FS.Stream) (out : IO.FS.Stream) : IO Unit := do
